@@ -11,11 +11,12 @@ structure DSt where
   ok : Bool
   dbOK : Bool := true      -- sessions.db can be written
   fix : Bool := false      -- code level: horizon repair present
+  fixB : Bool := false     -- code level: Basic-auth repair present
   faulted : Bool := false  -- some operation of this block ran while it could not
 
 def startNs : Nat := 946684800 * nsPerSec   -- synctest bubbles start at 2000-01-01T00:00:00Z
 
-def DSt.init : DSt := ⟨St.init 0 0 0, Spec.init 0 0 0, startNs, FMap.empty, FMap.empty, false, true, false, false⟩
+def DSt.init : DSt := ⟨St.init 0 0 0, Spec.init 0 0 0, startNs, FMap.empty, FMap.empty, false, true, false, false, false⟩
 
 def nAddrs : Nat := 16
 
@@ -37,6 +38,7 @@ def showLogin : LoginRes → List String
   | .tooMany r => ["429", toString r, "-"]
   | .forbidden => ["403", "-", "-"]
   | .ok tok => ["200", "-", toString tok]
+  | .passed => ["pass", "-", "-"]
 
 def parseLogin : List String → Option LoginRes
   | "429" :: r :: _ => r.toNat?.map .tooMany
@@ -70,11 +72,16 @@ def step1 (d : DSt) (line : String) : DSt × String :=
     | some (ins, impl) =>
       match op, ins.map String.toNat? with
       | "C12.reset", [some ma, some bm, some ttl, some _] =>
-        (⟨St.init ma bm ttl, Spec.init ma bm ttl, startNs, FMap.empty, FMap.empty, true, true, false, false⟩,
-         verdict (impl == ["ok"]) none "ok")
+        -- no code level in the line (corpus): the harness reports its own with the answer
+        let fix := ((impl.drop 1).headD "0").toNat?.getD 0
+        (⟨St.init ma bm ttl, Spec.init ma bm ttl, startNs, FMap.empty, FMap.empty, true, true,
+          fix / 2 % 2 == 1, fix % 2 == 1, false⟩,
+         verdict (impl.headD "" == "ok") none "ok")
       | "C12.reset", [some ma, some bm, some ttl, some _, some fix] =>
-        (⟨St.init ma bm ttl, Spec.init ma bm ttl, startNs, FMap.empty, FMap.empty, true, true, false, fix == 1⟩,
-         verdict (impl == ["ok"]) none "ok")
+        -- code level: bit 1 = horizon repair, bit 0 = Basic-auth repair
+        (⟨St.init ma bm ttl, Spec.init ma bm ttl, startNs, FMap.empty, FMap.empty, true, true,
+          fix / 2 % 2 == 1, fix % 2 == 1, false⟩,
+         verdict (impl.headD "" == "ok") none "ok")
       | "C12.callorder", [] =>
         -- extracted facts: handleLogin asks the limiter before newCookie (which evaluates the
         -- password); newCookie stores the session before it builds the cookie
@@ -82,13 +89,22 @@ def step1 (d : DSt) (line : String) : DSt × String :=
         (d, verdict (impl == [want]) (if impl == [want] then none else some "C12.call-order") want)
       | "C12.basic", [some _, some peer, some _, some good, some strict] =>
         if !d.ok then (d, "bad-op") else
-        let r := basicAuth d.st (good == 1)
-        let mstr := "\t".intercalate ((if r.1 then "1" else "0") :: showDump r.2)
-        -- with `strict` a Basic-auth request counts as a login attempt of the address
+        let req : Req := ⟨peer, none, false⟩
+        let o := Op.basic req (good == 1)
+        let r := stepFX d.fix d.fixB d.st d.now d.dbOK o
+        let passed := match r.1 with | .login .passed => true | _ => false
+        let mstr := "\t".intercalate ((if passed then "1" else "0") :: showDump r.2)
+        -- HTTP shows only let through / refused; a refusal is read as the answer the spec allows
         let authed := impl.headD "" == "1"
-        let bad := strict == 1 && mustReject d.sp peer d.now && authed
-        ({ d with st := r.2 }, verdict (mstr == "\t".intercalate impl)
-          (if bad then some "C12.throttle:basic-auth" else none) mstr)
+        let io : LoginRes := if authed then .passed
+          else if mustReject d.sp peer d.now then .tooMany 0 else .forbidden
+        -- the monitor counts Basic credentials as a login attempt at the repaired code level
+        -- (or with VERIF_C12_EXTRA=basic); below it the tree ignores them and so does the monitor
+        if d.fixB || strict == 1 then
+          let s := specStep d.sp d.now o (.login io)
+          ({ d with st := r.2, sp := s.2 }, verdict (mstr == "\t".intercalate impl)
+            (if s.1 then none else some "C12.throttle:basic-auth") mstr)
+        else ({ d with st := r.2 }, verdict (mstr == "\t".intercalate impl) none mstr)
       | "C12.sleep", [some ns] =>
         if !d.ok then (d, "bad-op") else
         ({ d with now := d.now + ns }, verdict (impl == ["ok"]) none "ok")
@@ -137,7 +153,7 @@ def step1 (d : DSt) (line : String) : DSt × String :=
         if !d.ok || good > 1 || tr > 1 then (d, "bad-op") else
         -- 999 = no proxy header yielded an address
         let o := Op.login ⟨peer, if hdr == 999 then none else some hdr, tr == 1⟩ (good == 1) user
-        let r := stepFX d.fix d.st d.now d.dbOK o
+        let r := stepFX d.fix d.fixB d.st d.now d.dbOK o
         let lr := match r.1 with | .login lr => lr | _ => .forbidden
         let ms := match lr with | .ok tok => d.mslots.set slot tok | _ => d.mslots
         let il := parseLogin impl
@@ -145,7 +161,7 @@ def step1 (d : DSt) (line : String) : DSt × String :=
         finish d o r.1 r.2 (il.map Obs.login) (showLogin lr ++ showDump r.2) impl "C12.throttle" ms is
       | "C12.req", [some slot] =>
         if !d.ok then (d, "bad-op") else
-        let r := stepFX d.fix d.st d.now d.dbOK (.request ((d.mslots slot).getD (bogusTok slot)))
+        let r := stepFX d.fix d.fixB d.st d.now d.dbOK (.request ((d.mslots slot).getD (bogusTok slot)))
         let b := match r.1 with | .auth b => b | _ => false
         let io := match impl with
           | "1" :: _ => some (Obs.auth true) | "0" :: _ => some (Obs.auth false) | _ => none
@@ -153,13 +169,13 @@ def step1 (d : DSt) (line : String) : DSt × String :=
           ((if b then "1" else "0") :: showDump r.2) impl "C12.session" d.mslots d.islots
       | "C12.logout", [some slot] =>
         if !d.ok then (d, "bad-op") else
-        let r := stepFX d.fix d.st d.now d.dbOK (.logout ((d.mslots slot).getD (bogusTok slot)))
+        let r := stepFX d.fix d.fixB d.st d.now d.dbOK (.logout ((d.mslots slot).getD (bogusTok slot)))
         finish d (.logout ((d.islots slot).getD (bogusTok slot))) r.1 r.2
           (match impl with | "ok" :: _ => some Obs.done | _ => none)
           ("ok" :: showDump r.2) impl "C12.session" d.mslots d.islots
       | "C12.restart", [] =>
         if !d.ok then (d, "bad-op") else
-        let r := stepFX d.fix d.st d.now true .restart
+        let r := stepFX d.fix d.fixB d.st d.now true .restart
         finish { d with dbOK := true } .restart r.1 r.2 (match impl with | "ok" :: _ => some Obs.done | _ => none)
           ("ok" :: showDump r.2) impl "C12.session" d.mslots d.islots
       | _, _ => (d, "bad-op")
